@@ -595,11 +595,25 @@ def run_all(jobs, modname=__name__):
     return recs
 
 
+def validate_split(ctx, jobs, recs):
+    """the scale-regime records (50..400-node matrices, some with several n x n outputs) in batches of
+    their own: a 4000-record batch of them is a 200 MB JSON file, which TLC's Json module cannot read"""
+    small = [k for k, j in enumerate(jobs) if not j.get("big")]
+    big = [k for k, j in enumerate(jobs) if j.get("big")]
+    verdicts = [None] * len(jobs)
+    for k, v in zip(small, ctx.validate(TLA, CFG, [recs[k] for k in small])):
+        verdicts[k] = v
+    if big:
+        for k, v in zip(big, ctx.validate(TLA, CFG, [recs[k] for k in big], tag="Trace_Distance_big", chunk=120)):
+            verdicts[k] = v
+    return verdicts
+
+
 def run(ctx):
     ctx.mc("MC_Distance.tla", "MC_Distance_c03.cfg" if ctx.quick else "MC_Distance_c03_thorough.cfg")
     jobs = build_jobs(ctx)
     recs = run_all(jobs)
-    verdicts = ctx.validate(TLA, CFG, recs)
+    verdicts = validate_split(ctx, jobs, recs)
     ctx.judge(jobs, rc.tag_failures(ctx, jobs, recs, verdicts), verdicts, what)
     ctx.extra["argument_variants"] = rc.variant_counts(jobs)
     ctx.extra["scale_regime_records"] = sum(1 for j in jobs if j.get("big"))
